@@ -37,6 +37,9 @@ type Attempt struct {
 	// AuthUse: which htpasswd entry a valid configuration with Auth uses: "" = bob in ht.txt,
 	// or an entry that only exists since a repair: "dave" (ht.txt), "carol-bad" (bad-ht.txt), "carol-missing" (missing-ht.txt)
 	AuthUse string `json:"auth_use,omitempty"`
+	// Roll: the (failing) configuration names other rotate_* values for the running site's access log;
+	// after the failure the running site writes more than a megabyte of log.
+	Roll bool `json:"roll,omitempty"`
 }
 
 const shaPassword = "{SHA}W6ph5Mm5Pz8GgiULbPgzG37mj9g="
@@ -88,6 +91,9 @@ var failureKinds = []string{"lex", "unknown-directive", "bad-arg", "bad-arg-afte
 
 func invalidText(a Attempt, dir string) string {
 	base := validText(Attempt{K: 900 + a.K, Sites: a.Sites, Auth: a.Auth, Hook: a.Hook}, dir)
+	if a.Roll {
+		base = strings.Replace(base, "/access.log\n", "/access.log {\n\t\trotate_size 1\n\t\trotate_keep 1\n\t}\n", 1)
+	}
 	inject := func(line string) string {
 		return strings.Replace(base, "\tstatus 204 /\n", "\tstatus 204 /\n\t"+line+"\n", 1)
 	}
@@ -177,6 +183,9 @@ func script(c *Case, dir string, only int) *child.Script {
 			op = "load" // the fresh process loads it as its first configuration
 		}
 		sc.Steps = append(sc.Steps, child.Step{Op: op, Text: t})
+		if a.Roll && a.Kind != "valid" && only < 0 {
+			sc.Steps = append(sc.Steps, child.Step{Op: "hammer", Port: "8081", N: 320})
+		}
 		if st, _, ok := repairStep(a); ok && a.Repair && only < 0 {
 			sc.Steps = append(sc.Steps, st)
 		}
@@ -215,6 +224,15 @@ func runCase(c *Case) (nontrivial bool, err error) {
 	// map observations back to attempts (occupy steps are interleaved)
 	var obs []child.Obs
 	for _, o := range resA.Obs {
+		if o.Op == "hammer" {
+			// the running site (if there is one) has written > 1 MB of access log after a failed attempt whose
+			// configuration asked for rotation at 1 MB: the running site's own settings (100 MB) still apply
+			if o.OK && len(o.Files) > 1 {
+				nontrivial = true
+				return true, fmt.Errorf("after attempt %d (a failing configuration that names rotate_size 1 / rotate_keep 1 for the running site's access log) the running site rotated its log at the rejected configuration's limit: log files %v; history %v", len(obs)-1, o.Files, kinds(c.Attempts[:len(obs)]))
+			}
+			continue
+		}
 		if o.Op != "occupy" && o.Op != "occupy-udp" && o.Op != "release" && o.Op != "writefile" {
 			obs = append(obs, o)
 		}
@@ -364,6 +382,9 @@ func genCase(t *rapid.T) *Case {
 			}
 			a.Kind = rapid.SampledFrom(kindsLeft).Draw(t, lb+"kind")
 			a.K = i
+			if running && a.Kind != "lex" {
+				a.Roll = rapid.IntRange(0, 3).Draw(t, lb+"roll") == 0
+			}
 			if _, use, ok := repairStep(a); ok && rapid.Bool().Draw(t, lb+"repair") {
 				a.Repair = true
 				repaired = append(repaired, use)
